@@ -137,6 +137,21 @@ class Origins(unittest.TestCase):
         self.assertIn("t::x", P.origin_calls(f, P.term_at(f, pt)["args"][0]))
 
 
+class Swap(unittest.TestCase):
+    def test_mem_swap_redefines_both(self):
+        # _2 = a(); _3 = b(); swap(&mut _2, &mut _3); use(_2)  -> _2 may now hold b()'s value
+        f = mkfn([
+            blk([], call("t::a", [], 2, 1)),
+            blk([], call("t::b", [], 3, 2)),
+            blk([assign(4, {"r": "ref", "mut": True, "pl": pl(2)}), assign(5, {"r": "ref", "mut": True, "pl": pl(4, "*")}),
+                 assign(6, {"r": "ref", "mut": True, "pl": pl(3)})], call("core::mem::swap", [mv(5), mv(6)], 7, 3)),
+            blk([], call("t::use_it", [mv(2)], 8, 4)),
+            blk([], {"t": "return"}),
+        ])
+        pt = P.call_points(f, r"t::use_it$")[0]
+        self.assertEqual(P.origin_calls(f, P.term_at(f, pt)["args"][0]) & {"t::a", "t::b"}, {"t::a", "t::b"})
+
+
 class Table(unittest.TestCase):
     def test_switch_table(self):
         f = mkfn([
